@@ -3,6 +3,9 @@ import SC.Properties.C01
 import SC.Properties.C02
 import SC.Properties.C09
 import SC.Properties.C10
+import SC.Properties.C11
+import SC.Properties.C12
+import SC.Proofs.Identities
 /-!
 # C17 — the API agrees with itself on every input
 
@@ -56,6 +59,62 @@ theorem containsX (s t : Bytes) (r : Int) :
     (S.containsAny s t = true ↔ S.indexAny s t ≥ 0) ∧ (S.containsRune s r = true ↔ S.indexRune s r ≥ 0) ∧
     (S.containsNonASCII s = true ↔ S.indexNonASCII s ≥ 0) := by
   simp [S.containsAny, S.containsRune, S.containsNonASCII]
+/-- Contains == (Count > 0) == Cut-found -/
+theorem count_cut_contains (s t : Bytes) :
+    (0 < S.count s t ↔ S.contains s t = true) ∧ (S.cut s t).2.2 = S.contains s t :=
+  ⟨A.count_pos_iff s t, A.cut_found_iff s t⟩
+
+/-- HasSuffix(s,t) == (LastIndex(s,t) = i ≥ 0 and EqualFold(s[i:], t)), and TrimSuffix/CutSuffix cut at that `i` -/
+theorem hasSuffix_iff_lastIndex (s t : Bytes) :
+    (S.hasSuffix s t = true ↔ ∃ i : Nat, S.lastIndex s t = (i : Int) ∧ S.equalFold (s.drop i) t = true) ∧
+    (∀ i : Nat, S.lastIndex s t = (i : Int) → S.equalFold (s.drop i) t = true →
+        S.trimSuffix s t = (0, i) ∧ S.cutSuffix s t = ((0, i), true)) := by
+  refine ⟨A.hasSuffix_iff_lastIndex s t, ?_⟩
+  intro i h1 h2
+  have := (A.suffixStart_iff s t i).mpr ⟨h1, h2⟩
+  simp [S.trimSuffix, S.cutSuffix, this]
+
+/-- HasPrefix == (TrimPrefix shortened `s` or `t` is empty) -/
+theorem hasPrefix_iff_trim (s t : Bytes) : S.hasPrefix s t = true ↔ ((S.trimPrefix s t).2 < s.length ∨ t = []) :=
+  A.hasPrefix_iff_trim s t
+
+/-- EqualFold == (HasPrefix && HasSuffix with equal code-point counts) -/
+theorem equalFold_iff_affixes (s t : Bytes) :
+    S.equalFold s t = true ↔ (S.hasPrefix s t = true ∧ S.hasSuffix s t = true ∧ S.nrunes s = S.nrunes t) :=
+  A.equalFold_iff_affixes s t
+
+/-- IndexRune(s,r) == Index(s,string(r)) == IndexAny(s,string(r)) for valid `r`; IndexByte(s,c) == Index(s,string(c)) for c < 0x80 -/
+theorem single_char_searches (s : Bytes) (r : Int) (hv : S.validRuneI r = true) (c : UInt8) (hc : c < 0x80) :
+    S.indexRune s r = S.index s (encode r.toNat) ∧ S.indexRune s r = S.indexAny s (encode r.toNat) ∧
+    S.indexByte s c = S.index s [c] :=
+  ⟨(A.indexRune_eq_index_encode s r hv).1, (A.indexRune_eq_index_encode s r hv).2, A.indexByte_eq_index s c hc⟩
+
+/-- the identities that relate *different cores*, for the algorithm model (both packages, every backend setting) -/
+theorem model_identities2 (cfg : A.Cfg) (s t : Bytes) (r : Int) (hv : S.validRuneI r = true) (c : UInt8) (hc : c < 0x80) :
+    ((A.Contains cfg s t = true) ↔ 0 ≤ A.LastIndex cfg s t) ∧
+    (A.Contains cfg s t = true ↔ 0 < A.Count cfg s t) ∧
+    (A.Cut cfg s t).map (·.2.2) = some (A.Contains cfg s t) ∧
+    (0 ≤ A.Index cfg s t → A.Index cfg s t ≤ A.LastIndex cfg s t) ∧
+    (A.HasSuffix cfg s t = true ↔ ∃ i : Nat, A.LastIndex cfg s t = (i : Int) ∧ A.EqualFold cfg (s.drop i) t = true) ∧
+    A.IndexRune cfg s r = A.Index cfg s (encode r.toNat) ∧ A.IndexRune cfg s r = A.IndexAny cfg s (encode r.toNat) ∧
+    A.IndexByte cfg s c = A.Index cfg s [c] ∧
+    (A.ContainsAny cfg s t = true ↔ 0 ≤ A.IndexAny cfg s t) ∧ (A.ContainsRune cfg s r = true ↔ 0 ≤ A.IndexRune cfg s r) := by
+  have hEF : ∀ x y, A.EqualFold cfg x y = S.equalFold x y := fun x y => C02.equalFold_refines cfg x y
+  simp only [C01.contains_refines, C08.lastIndex_refines, C12.count_refines, C12.cut_refines, C01.index_refines,
+    C09.hasSuffix_refines, C10.indexRune_refines, C11.indexAny_refines, C10.indexByte_refines, hEF,
+    C11.containsAny_refines, C10.containsRune_refines, Option.map_some]
+  refine ⟨?_, ?_, ?_, ?_, ?_, ?_, ?_, ?_, ?_, ?_⟩
+  · rw [C01.contains_iff]; exact (C08.index_le_lastIndex s t).1
+  · rw [← A.count_pos_iff]; exact ⟨fun h => by exact_mod_cast h, fun h => by exact_mod_cast h⟩
+  · rw [A.cut_found_iff]
+  · exact (C08.index_le_lastIndex s t).2
+  · exact A.hasSuffix_iff_lastIndex s t
+  · exact (A.indexRune_eq_index_encode s r hv).1
+  · exact (A.indexRune_eq_index_encode s r hv).2
+  · exact A.indexByte_eq_index s c hc
+  · simp [S.containsAny]
+  · simp [S.containsRune]
+
 /-- the same identities hold of the algorithm model (through the refinement theorems) -/
 theorem model_identities (cfg : A.Cfg) (s t : Bytes) :
     (A.Contains cfg s t = true ↔ 0 ≤ A.Index cfg s t) ∧ (A.HasPrefix cfg s t = true ↔ A.Index cfg s t = 0) ∧
